@@ -11,7 +11,7 @@ LEG_BR = ["[Branch%d_%d]" % (l, m) for l in (1, 2, 3) for m in (1, 2, 3)] + \
          ["[Expl%sRing%d]" % (b, l) for b in ("=", "#", "/", "\\") for l in (1, 2, 3)]
 LEG_AT = ["[Cexpl]", "[=Nexpl]", "[C@@Hexpl]", "[N+expl]", "[Fe++expl]", "[/O-expl]", "[#Cexpl]", "[CH2expl]",
           "[13Cexpl]", "[cexpl]", "[Xxexpl]", "[O--expl]", "[=N+1expl]", "[nHexpl]"]
-A_BR = CORE + ["[Branch1_1]", "[Branch1_2]", "[Branch2_3]", "[Branch3_1]", "[Expl=Ring1]", "[Expl#Ring2]",
+A_BR = CORE + ["[#C]", "[Branch1_1]", "[Branch1_2]", "[Branch2_3]", "[Branch3_1]", "[Expl=Ring1]", "[Expl#Ring2]",
                "[Expl/Ring1]", "[Expl\\Ring1]", "[Expl=Ring3]"]
 A_AT = CORE + LEG_AT
 
@@ -70,11 +70,23 @@ def run(rep, tier, seed, budget):
         t3 = make_tokens("u", 1, ["[C]", "[Ring1]", "[Branch1_2]", "[N]"])[0]
         judge(eng, col, ["[C]", "[=C]", "[C]", "[C]", t1, t2, t3, "[O]"])
 
+    def all_lm2(eng, col):
+        # a legacy branch symbol at a state high enough (>= 4) to tell bond types 1/2/3 apart
+        t0 = make_tokens("s", 1, ["[C]", "[S]"])[0]
+        t1 = make_tokens("t", 1, LEG_BR + ["[Branch1]"])[0]
+        t2 = make_tokens("u", 1, ["[C]", "[Ring1]", "[Branch1_3]"])[0]
+        t3, t4 = make_tokens("v", 2, ["[#C]", "[=C]", "[C]", "[#Cexpl]", "[=Nexpl]"])
+        judge(eng, col, [t0, t1, t2, t3, t4, "[O]"])
+
     plan = [("br", n) for n in ((1, 2, 3) if quick else (1, 2, 3, 4, 5))] + \
-           [("at", n) for n in ((1, 2, 3) if quick else (1, 2, 3, 4, 5))] + [("lm", 0)]
+           [("at", n) for n in ((1, 2, 3) if quick else (1, 2, 3, 4, 5))] + [("lm", 0), ("lm2", 0)]
     for kind, n in plan:
         left = t_end - time.time()
-        if kind == "lm":
+        if kind == "lm2":
+            name = "all L, M at high state: {[C],[S]} t1 t2 t3 t4 [O], t1 over all 21 legacy branch/ring symbols, t3 t4 over =/# atoms"
+            fn, bounds = all_lm2, {"t1": LEG_BR + ["[Branch1]"], "t2": ["[C]", "[Ring1]", "[Branch1_3]"],
+                                   "t3,t4": ["[#C]", "[=C]", "[C]", "[#Cexpl]", "[=Nexpl]"]}
+        elif kind == "lm":
             name = "all L, M in 1..3: [C][=C][C][C] t1 t2 t3 [O], t1 t2 over all 21 legacy branch/ring symbols"
             fn, bounds = all_lm, {"t1,t2": LEG_BR + ["[C]", "[Ring1]"], "t3": ["[C]", "[Ring1]", "[Branch1_2]", "[N]"]}
         else:
